@@ -377,7 +377,8 @@ static void run_tree_case(vh_rng* r, int mode, int universe, int pattern, int no
   int64_t live0 = pe.live;
   make_keys();
   memset(present, 0, sizeof present); nmodel = 0; version = 0;
-  T = new_with(Tree, tuple(key_type_of_mode(), Int));
+  /* T lives in static storage, which the collector does not scan: it is allocated as a root */
+  T = new_root_with(Tree, tuple(key_type_of_mode(), Int));
   snprintf(opd, sizeof opd, "construction");
   vh_op("tree<%s> U=%d pattern=%d ops=%d", KMNAME[mode], U, pattern, nops);
   verify();
